@@ -77,6 +77,98 @@ fn cmd_compile_progs(args: &[String]) {
     }
 }
 
+/// optimize-cases <jobs.ndjson> <out.ndjson>: each job {id, prog}: builds the context with the real API, runs the real
+/// optimize_context, exports the main graph before and after, the old->new node mapping, the types re-inferred after a
+/// serde round trip of the optimised context, and evaluations of both on seeded inputs.
+fn cmd_optimize_cases(args: &[String]) {
+    use ciphercore_base::evaluators::simple_evaluator::SimpleEvaluator;
+    use ciphercore_base::evaluators::Evaluator;
+    use ciphercore_base::optimizer::optimize::optimize_context;
+    let jobs = read_jobs(&args[0]);
+    let mut out = std::io::BufWriter::new(std::fs::File::create(&args[1]).unwrap());
+    cc_conform::quiet_panics();
+    for job in jobs {
+        let res = std::panic::catch_unwind(|| -> ciphercore_base::errors::Result<Json> {
+            let c0 = match prog::build_context(&job["prog"]) {
+                Ok(c) => c,
+                Err(e) => {
+                    // the case itself is not a well-typed graph: not the optimiser's business
+                    return Ok(json!({"id": job["id"], "res": "builderr", "msg": e.to_string(), "before": [], "after": [], "map": [], "evals": [], "stages": {}}));
+                }
+            };
+            // with "owners": the case is the last optimisation step of the real compilation pipeline
+            // (the context after uniquify_prf_id, as recorded by the stage tracer)
+            let (c, stage_bags) = if job.get("owners").is_some() {
+                let owners: Vec<_> = job["owners"].as_array().unwrap().iter().map(compile::io_status).collect();
+                let outs: Vec<_> = job["outs"].as_array().unwrap().iter().map(compile::io_status).collect();
+                let r = compile::compile(&c0, &owners, &outs, job["mode"].as_str().unwrap())?;
+                let mut bags = serde_json::Map::new();
+                for (name, ctx) in r.stages.iter() {
+                    let mut b = compile::prf_bag(&ctx.get_main_graph()?);
+                    b["graphs"] = json!(ctx.get_graphs().len());
+                    b["nodes"] = json!(ctx.get_main_graph()?.get_nodes().len());
+                    bags.insert(name.clone(), b);
+                }
+                (compile::stage(&r.stages, "mpc.uniquified")?.clone(), Json::Object(bags))
+            } else {
+                (c0, json!({}))
+            };
+            let mapped = optimize_context(&c, SimpleEvaluator::new(None)?)?;
+            let before = c.get_main_graph()?;
+            let after = mapped.get_context().get_main_graph()?;
+            let mut map = vec![];
+            for n in before.get_nodes() {
+                if mapped.mappings.contains_node(&n) {
+                    let m = mapped.mappings.get_node(&n);
+                    map.push(json!([n.get_id() + 1, m.get_id() + 1]));
+                }
+            }
+            // serde round trip of the optimised context: re-inferred types
+            let text = serde_json::to_string(&mapped.get_context())?;
+            let reloaded: ciphercore_base::graphs::Context = serde_json::from_str(&text)?;
+            let rg = reloaded.get_main_graph()?;
+            let mut after_nodes = export::export_graph_nodes(&after, export::Num::Mod(16))?;
+            for (i, n) in rg.get_nodes().iter().enumerate() {
+                after_nodes[i]["ty_reload"] = export::type_json(&n.get_type()?);
+            }
+            // evaluation before / after reload on seeded inputs (only meaningful without randomness)
+            let mut evals = vec![];
+            let seed = job["seed"].as_u64().unwrap_or(1);
+            for k in 0..3u64 {
+                let mut prng = ciphercore_base::random::PRNG::new(Some({
+                    let mut s = [0u8; 16];
+                    s[..8].copy_from_slice(&(seed * 31 + k).to_le_bytes());
+                    s
+                }))?;
+                let mut ins = vec![];
+                for n in compile::inputs_of(&before) {
+                    ins.push(prng.get_random_value(n.get_type()?)?);
+                }
+                let t = before.get_output_node()?.get_type()?;
+                let v0 = SimpleEvaluator::new(Some([7u8; 16]))?.evaluate_graph(before.clone(), ins.clone());
+                let v1 = SimpleEvaluator::new(Some([7u8; 16]))?.evaluate_graph(rg.clone(), ins.clone());
+                let show = |v: ciphercore_base::errors::Result<ciphercore_base::data_values::Value>| match v {
+                    Ok(v) => export::value_json(&v, &t, export::Num::Str).unwrap_or(json!("unprintable")),
+                    Err(_) => json!("error"),
+                };
+                evals.push(json!({"before": show(v0), "after_reload": show(v1)}));
+            }
+            Ok(json!({
+                "id": job["id"], "res": "ok",
+                "before": export::export_graph_nodes(&before, export::Num::Mod(16))?,
+                "after": after_nodes, "map": map, "evals": evals,
+                "before_prf": compile::prf_bag(&before), "after_prf": compile::prf_bag(&after),
+                "stages": stage_bags,
+            }))
+        });
+        match res {
+            Ok(Ok(rec)) => writeln!(out, "{}", rec).unwrap(),
+            Ok(Err(e)) => writeln!(out, "{}", json!({"id": job["id"], "res": "err", "msg": e.to_string(), "before": [], "after": [], "map": [], "evals": [], "stages": {}})).unwrap(),
+            Err(_) => writeln!(out, "{}", json!({"id": job["id"], "res": "panic", "before": [], "after": [], "map": [], "evals": [], "stages": {}})).unwrap(),
+        }
+    }
+}
+
 fn main() {
     let args: Vec<String> = std::env::args().skip(1).collect();
     if args.is_empty() {
@@ -86,6 +178,7 @@ fn main() {
     match args[0].as_str() {
         "compile-dump" => cmd_compile_dump(&args[1..]),
         "compile-progs" => cmd_compile_progs(&args[1..]),
+        "optimize-cases" => cmd_optimize_cases(&args[1..]),
         c => {
             eprintln!("unknown command {c}");
             std::process::exit(2);
